@@ -14,7 +14,7 @@ EXTENDS Naturals, Sequences, FiniteSets, TLC
 \* "render": the handler answers through the Render service that the Renderer middleware mapped for THIS request
 \* "panic": the handler panics with a value naming its request; the Recovery middleware answers with a page that carries it
 \* "lone" / "deep": routes whose static segments nothing has touched since registration (cold lazily rendered strings)
-RouteKinds == {"static", "param", "opt", "regex", "all", "hdr", "render", "panic", "lone", "deep", "ret", "body", "unk"}   \* "unk": a method token that is not registrable - answered by the not-found chain
+RouteKinds == {"static", "param", "opt", "regex", "all", "hdr", "render", "panic", "lone", "deep", "ret", "body", "unk", "file"}   \* "file": a static file with its ETag (Static middleware);  "unk": a method token that is not registrable - answered by the not-found chain
 HasVal(k) == k \in {"param", "opt", "regex", "all", "render", "panic", "lone", "deep", "ret", "body"}   \* "ret": the handler RETURNS its body (shared ReturnHandler service)
 Serial(rq) == [h |-> rq.route, val |-> IF HasVal(rq.route) THEN rq.val ELSE "", tag |-> rq.id,
                url |-> "/p/" \o rq.val, wid |-> rq.id,
